@@ -739,6 +739,16 @@ class Interp:
                 return v
         raise Undecided("cast %s to %s" % (ck, t["s"]))
 
+    @staticmethod
+    def _sz_nonneg(st, t):
+        """every size monomial of integer term t is a single size symbol (a value in [0, 2^64))."""
+        for at, _ in t[3]:
+            if at[0] == "sz":
+                for m, _k in at[1].t:
+                    if len(m) != 1:
+                        return False      # a product of two sizes may reach 2^128
+        return True
+
     def binop(self, st, fr, op, a, b):
         if a[0] == "size" and b[0] == "size":
             x, y = a[1], b[1]
@@ -804,6 +814,15 @@ class Interp:
                 ok = (not x[3]) and x[2] == (1 << w) - 1
                 return ("tuple", [vint(T.isub(x, y)), vbool(False) if ok else ("bool", ("opaque", "int-overflow", T.ishow(x), T.ishow(y)))])
             if op == "AddWithOverflow":
+                # sums of a few converted sizes (each < 2^64) and small constants cannot reach 2^w for
+                # a type wider than usize: `i as u128 + 1`
+                def small(t):
+                    if w <= 64 or t[2] >= (1 << 64):
+                        return False
+                    return all(at[0] == "sz" and not at[1].c and all(isinstance(k_, int) and 0 < k_ for _, k_ in at[1].t) and 0 < k < (1 << 16)
+                               and sum(k_ for _, k_ in at[1].t) < (1 << 16) for at, k in t[3])
+                if small(x) and small(y) and self._sz_nonneg(st, x) and self._sz_nonneg(st, y):
+                    return ("tuple", [vint(T.iadd(x, y)), vbool(False)])
                 return ("tuple", [vint(T.iadd(x, y)), ("bool", ("opaque", "int-overflow", T.ishow(x), T.ishow(y)))])
             if op in ("Eq", "Ne"):
                 eq = T.iequal(x, y, st.F)
@@ -1121,6 +1140,11 @@ class Interp:
         body = self.find_body_by_self_type(fr.crate, fn) or self.find_body_by_receiver(st, fr.crate, fn, ci["args"])
         if body is not None:
             cr, b = body
+            # the call names [Self, method params..]; an impl method without impl-level generics has
+            # exactly the method params (`fn pick<T>(items: &[T])` of a private trait)
+            ta = fn.get("args") or []
+            if ta and len(b.get("generics") or []) == len(ta) - 1 and b.get("generics"):
+                return self.inline(st, cr, b, ci["args"], fr.depth + 1, targs=ta[1:], caller_cr=fr.crate)
             return self.inline(st, cr, b, ci["args"], fr.depth + 1)
         raise Undecided("unknown callee %s%s" % (fn["path"], (" => " + fn["resolved"]["path"]) if "resolved" in fn else ""))
 
